@@ -13,12 +13,13 @@ from gentree import VERIF, WORK, TREE
 LOGS = os.path.join(WORK, "logs")
 TOTAL_MEM_GB = int(os.environ.get("VERIF_MEM_GB", "52"))
 MAX_WORKERS = int(os.environ.get("VERIF_WORKERS", "6"))
+WORKER_BASE = int(os.environ.get("VERIF_WORKER_BASE", "0"))
 
 
 class Harness:
     def __init__(self, name, pkg, prop, tier="quick", mem=6, timeout=600, memsafe=False,
                  desc="", bounds="", functions=(), stubs=(), assumes=(), covers=(),
-                 known=None, extra=(), features=None, unwindset=None):
+                 known=None, extra=(), features=None, unwindset=None, group=False):
         self.name = name
         self.pkg = pkg
         self.prop = prop
@@ -36,6 +37,7 @@ class Harness:
         self.extra = list(extra)
         self.features = features
         self.unwindset = unwindset
+        self.group = group        # name is a prefix: one cargo-kani invocation runs every harness matching it
 
 
 def _cmd(h, target_dir):
@@ -70,6 +72,44 @@ RE_STEPS = re.compile(r"size of program expression: (\d+) steps")
 RE_VCC = re.compile(r"Generated (\d+) VCC\(s\), (\d+) remaining")
 RE_STUB = re.compile(r"^\s+- Stub: (.*)$", re.M)
 RE_COVERLINE = re.compile(r'Check \d+: (\S+)\.cover\.\d+\n\s+- Status: (\w+)\n\s+- Description: "([^"]*)"')
+
+
+RE_SECTION = re.compile(r"^Checking harness (\S+?)\.\.\.$", re.M)
+ORDER = {"HOLDS": 0, "VACUOUS": 1, "INCONCLUSIVE": 2, "COUNTEREXAMPLE": 3}
+
+
+def parse_group(text):
+    """Split a multi-harness log into per-harness sections and combine."""
+    marks = list(RE_SECTION.finditer(text))
+    if not marks:
+        return parse_log(text)
+    subs = []
+    for i, m in enumerate(marks):
+        end = marks[i + 1].start() if i + 1 < len(marks) else len(text)
+        sec = text[m.start():end]
+        r = parse_log(sec)
+        r["harness"] = m.group(1).split("::")[-1]
+        subs.append(r)
+    worst = max(subs, key=lambda r: ORDER[r["verdict"]])
+    agg = {"verdict": worst["verdict"],
+           "reason": "; ".join(f"{r['harness']}: {r['reason']}" for r in subs if r["verdict"] != "HOLDS"),
+           "failed": [f for r in subs for f in r["failed"]],
+           "covers": [c for r in subs for c in r["covers"]],
+           "sat_variables": sum(r["sat_variables"] for r in subs),
+           "clauses": sum(r["clauses"] for r in subs),
+           "symex_s": round(sum(r["symex_s"] for r in subs), 2),
+           "solver_s": round(sum(r["solver_s"] for r in subs), 2),
+           "steps": sum(r["steps"] for r in subs), "vccs": sum(r["vccs"] for r in subs),
+           "checks": sum(r["checks"] for r in subs), "stubs": subs[0]["stubs"],
+           "subs": [{"harness": r["harness"], "verdict": r["verdict"], "reason": r["reason"],
+                     "failed": r["failed"], "sat_variables": r["sat_variables"],
+                     "solver_s": r["solver_s"], "symex_s": r["symex_s"],
+                     "covers": r["covers"]} for r in subs]}
+    # a compile error / missing summary after the sections
+    if not re.search(r"Complete - \d+ successfully verified harnesses", text):
+        if agg["verdict"] == "HOLDS":
+            agg["verdict"], agg["reason"] = "INCONCLUSIVE", "group run did not complete"
+    return agg
 
 
 def parse_log(text):
@@ -132,7 +172,7 @@ def parse_log(text):
 
 def run_one(h, worker):
     os.makedirs(LOGS, exist_ok=True)
-    target = os.path.join(WORK, "target", f"w{worker}")
+    target = os.path.join(WORK, "target", f"w{worker + WORKER_BASE}")
     log = os.path.join(LOGS, h.name + ".log")
     cmd = _cmd(h, target)
     env = dict(os.environ, CARGO_NET_OFFLINE="true", CARGO_TERM_COLOR="never")
@@ -154,7 +194,7 @@ def run_one(h, worker):
             p.wait()
     wall = time.time() - t0
     text = open(log, errors="replace").read()
-    r = parse_log(text)
+    r = parse_group(text) if h.group else parse_log(text)
     if timed_out:
         r["verdict"], r["reason"] = "INCONCLUSIVE", f"timeout after {h.timeout}s"
     r.update(harness=h.name, wall_s=round(wall, 1), log=log, mem_cap_gb=h.mem)
